@@ -1336,6 +1336,10 @@ class Lib:
         if isinstance(recv, Sym) and isinstance(args[0], str):
             a = args[0]
             return self._strfun('str.startswith(%r)' % a, lambda s: s.startswith(a), recv, z3.BoolSort())
+        if len(args) == 1 and all(isinstance(x, str) or (isinstance(x, Sym) and x.kind == 'str') for x in (recv, args[0])):
+            # both sides symbolic: an uninterpreted relation (reflexive; not equality)
+            f2 = self.I.reg.ufunc('str.startswith', StrS, StrS, z3.BoolSort())
+            return Sym(f2(to_z3(recv, sort=StrS), to_z3(args[0], sort=StrS)))
         raise OutOfSubset("startswith")
 
     def meth_split(self, ctx, recv, args, kwargs, f):
